@@ -317,7 +317,7 @@ def run_lines(exe, lines, shards=NCPU, timeout=1800, min_per_shard=64):
     per = (n + shards - 1) // shards
     procs = []
     for i in range(shards):
-        chunk = lines[i * per:(i + 1) * per]
+        chunk = lines[i::shards]   # round-robin: heavy suites are spread over all shards
         if not chunk:
             continue
         p = subprocess.Popen([exe], stdin=subprocess.PIPE, stdout=subprocess.PIPE, stderr=subprocess.PIPE, env=ENV)
@@ -345,9 +345,9 @@ def run_lines(exe, lines, shards=NCPU, timeout=1800, min_per_shard=64):
         t.start()
     for t in ths:
         t.join()
-    out = []
-    for r in results:
-        out.extend(r)
+    out = [None] * n
+    for k, r in enumerate(results):
+        out[k::len(results)] = r
     return out
 
 
